@@ -426,6 +426,18 @@ class SchemaBuilder(
         return factory
 
 
+def is_graphql_value(value: Any) -> bool:
+    if value is None or isinstance(value, (bool, int, float, str, Enum)):
+        return True
+    if isinstance(value, (list, tuple)):
+        return all(map(is_graphql_value, value))
+    if isinstance(value, dict):
+        return all(
+            isinstance(k, str) and is_graphql_value(v) for k, v in value.items()
+        )
+    return False
+
+
 FieldType = TypeVar("FieldType", graphql.GraphQLInputField, graphql.GraphQLField)
 
 
@@ -504,16 +516,20 @@ class InputSchemaBuilder(
             field_type = Optional[field_type]
         elif field_default is not graphql.Undefined:
             try:
-                default = serialize(
+                serialized_default = serialize(
                     field_type,
                     field_default,
                     aliaser=self.aliaser,
-                    check_type=True,
                     conversion=field.deserialization,
                     fall_back_on_any=False,
                     # graphql-core expects enum members, not their values
                     pass_through=PassThroughOptions(enums=True),
                 )
+                # no type check (an int default of a float field is fine), but an
+                # object left as is by the serialization cannot be a schema default
+                if not is_graphql_value(serialized_default):
+                    raise TypeError("unserializable default")
+                default = serialized_default
             except Exception:
                 field_type = Optional[field_type]
         factory = self.visit_with_conv(field_type, field.deserialization)
